@@ -1,6 +1,8 @@
 #!/usr/bin/env python3
 """Regenerate coq/Gen/*.v from /repo's current source (fail closed).
 
+Kernel definitions live in translator/kernels/*.py; each module defines
+  FILES = [(gen_file_name, source_description, header, [(kernel_name, function), ...]), ...]
 Every kernel is located by function name and statement shape, never by line number.  A kernel
 that cannot be located uniquely or that uses syntax outside the translator's subset prints
   KERNEL-FAIL <gen file> <kernel>: <reason>
@@ -8,293 +10,39 @@ and the process exits 1; the previously generated file is then left in place (st
 the model still builds and the correspondence check shows where behaviour changed.
 Files are only rewritten when their content changes (to keep make incremental).
 """
-import ast
+import glob
+import importlib
 import os
 import sys
 
-sys.path.insert(0, os.path.dirname(os.path.abspath(__file__)))
-from py2gallina import Tr, Unsupported, find_function  # noqa: E402
+HERE = os.path.dirname(os.path.abspath(__file__))
+sys.path.insert(0, HERE)
+sys.path.insert(0, os.path.join(HERE, 'kernels'))
+import genlib  # noqa: E402
+from py2gallina import Unsupported  # noqa: E402
 
-REPO = os.environ.get('VERIF_REPO', '/repo')
-OUT = os.path.join(os.path.dirname(os.path.dirname(os.path.abspath(__file__))), 'coq', 'Gen')
-
-HEADER_Z = """(* GENERATED by /verif/translator/gen.py from {src} -- do not edit *)
-From Coq Require Import ZArith List Bool.
-Require Import PV.Base.PyArith.
-Import ListNotations.
-Open Scope Z_scope.
-Open Scope bool_scope.
-
-"""
-
-HEADER_F = """(* GENERATED by /verif/translator/gen.py from {src} -- do not edit *)
-From Coq Require Import ZArith List Bool.
-Require Import PV.Base.PyArith PV.Base.Num.
-Import ListNotations.
-Open Scope Z_scope.
-Open Scope bool_scope.
-
-Section Kernels.
-Context {{N : NumOps}}.
-
-"""
-
-_trees = {}
+OUT = os.path.join(os.path.dirname(HERE), 'coq', 'Gen')
 
 
-def tree(rel):
-    if rel not in _trees:
-        _trees[rel] = ast.parse(open(os.path.join(REPO, rel)).read())
-    return _trees[rel]
-
-
-def only(xs, what):
-    xs = list(xs)
-    if len(xs) != 1:
-        raise Unsupported(f'expected exactly one {what}, found {len(xs)}')
-    return xs[0]
-
-
-def assigns_to(stmts, names):
-    """The top-level assignments (in order) whose single target is one of `names`."""
-    out = []
-    for s in stmts:
-        if isinstance(s, ast.Assign) and len(s.targets) == 1 and isinstance(s.targets[0], ast.Name) \
-                and s.targets[0].id in names:
-            out.append(s)
-    if [s.targets[0].id for s in out] != list(names):
-        raise Unsupported(f'assignments to {names}: found {[s.targets[0].id for s in out]}')
-    return out
-
-
-class Subst(ast.NodeTransformer):
-    """Replace calls `fname(...)` by a plain name."""
-
-    def __init__(self, table):
-        self.table = table
-
-    def visit_Call(self, node):
-        self.generic_visit(node)
-        if isinstance(node.func, ast.Name) and node.func.id in self.table:
-            return ast.copy_location(ast.Name(id=self.table[node.func.id], ctx=ast.Load()), node)
-        return node
-
-
-# --------------------------------------------------------------------------- kernels
-
-
-def k_parallelize():
-    f = find_function(tree('pysparkling/context.py'), 'Context.parallelize.partitioned')
-    loop = only([s for s in f.body if isinstance(s, ast.For)], 'for loop in partitioned()')
-    if not (isinstance(loop.target, ast.Name) and loop.target.id == 'i'
-            and isinstance(loop.iter, ast.Call) and getattr(loop.iter.func, 'id', None) == 'range'
-            and len(loop.iter.args) == 1 and getattr(loop.iter.args[0], 'id', None) == 'numSlices'):
-        raise Unsupported('loop header is not `for i in range(numSlices)`')
-    body = list(loop.body)
-    last = body[-1]
-    if not (isinstance(last, ast.Expr) and isinstance(last.value, ast.Yield)):
-        raise Unsupported('loop body does not end with a yield')
-    y = last.value.value
-    if not (isinstance(y, ast.Call) and isinstance(y.func, ast.Attribute) and y.func.attr == 'islice'
-            and len(y.args) == 2 and getattr(y.args[0], 'id', None) == 'x'):
-        raise Unsupported('yield is not itertools.islice(x, <count>)')
-    body[-1] = ast.Return(value=y.args[1])
-    t = Tr()
-    return t.function('par_take', [('i', 'Z'), ('len_x', 'Z'), ('numSlices', 'Z')], body, 'ERROR', ret_type='Z')
-
-
-def k_parallelize_guard():
-    f = find_function(tree('pysparkling/context.py'), 'Context.parallelize')
-    first = [s for s in f.body if not (isinstance(s, ast.Expr) and isinstance(s.value, ast.Constant))][0]
-    if not (isinstance(first, ast.If) and isinstance(first.test, ast.BoolOp) and isinstance(first.test.op, ast.Or)
-            and len(first.test.values) == 2):
-        raise Unsupported('first statement is not `if numSlices is None or <cond>`')
-    isnone, cond = first.test.values
-    if not (isinstance(isnone, ast.Compare) and isinstance(isnone.ops[0], ast.Is)):
-        raise Unsupported('first disjunct is not `numSlices is None`')
-    t = Tr()
-    c, ty = t.expr(cond)
-    return f'Definition par_single (numSlices : Z) : bool :=\n  {c}.\n'
-
-
-def k_coalesce():
-    f = find_function(tree('pysparkling/rdd.py'), 'RDD.coalesce')
-    names = ['new_num_partitions', 'small_group_size', 'big_group_size',
-             'number_of_big_groups', 'number_of_small_groups', 'partition_mapping']
-    stmts = assigns_to(f.body, names)
-    t = Tr()
-    res = '(new_num_partitions, partition_mapping)'
-    return t.function('coalesce_plan', [('numPartitions', 'Z'), ('current_num_partitions', 'Z')], stmts, res)
-
-
-def k_unique_id():
-    f = find_function(tree('pysparkling/rdd.py'), 'RDD.zipWithUniqueId')
-    gens = [n for n in ast.walk(f) if isinstance(n, ast.GeneratorExp)]
-    g = only(gens, 'generator expression in zipWithUniqueId')
-    if not (isinstance(g.elt, ast.Tuple) and len(g.elt.elts) == 2):
-        raise Unsupported('generator element is not a pair')
-    comp = only(g.generators, 'comprehension clause')
-    if not (isinstance(comp.iter, ast.Call) and getattr(comp.iter.func, 'id', None) == 'enumerate'
-            and isinstance(comp.target, ast.Tuple) and [getattr(e, 'id', None) for e in comp.target.elts] == ['e', 'xx']
-            and getattr(g.elt.elts[0], 'id', None) == 'xx'):
-        raise Unsupported('not `(xx, <id>) for e, xx in enumerate(x)`')
-    t = Tr()
-    return t.function('unique_id', [('e', 'Z'), ('num_p', 'Z'), ('tc_partition_id', 'Z')],
-                      [ast.Return(value=g.elt.elts[1])], 'ERROR', ret_type='Z')
-
-
-def k_hash_mask():
-    f = find_function(tree('pysparkling/rdd.py'), '_hash')
-    ret = only([s for s in f.body if isinstance(s, ast.Return)], 'return in _hash')
-    e = Subst({'portable_hash': 'h'}).visit(ret.value)
-    return Tr().function('rdd_hash_mask', [('h', 'Z')], [ast.Return(value=e)], 'ERROR', ret_type='Z')
-
-
-def k_partition_index():
-    f = find_function(tree('pysparkling/rdd.py'), 'RDD.partitionBy')
-    loop = only([s for s in f.body if isinstance(s, ast.For)], 'for loop in partitionBy')
-    a = only([s for s in loop.body if isinstance(s, ast.Assign) and getattr(s.targets[0], 'id', None) == 'idx'],
-             'assignment to idx')
-    e = Subst({'partitionFunc': 'fk'}).visit(a.value)
-    return Tr().function('partition_index', [('fk', 'Z'), ('numPartitions', 'Z')], [ast.Return(value=e)],
-                         'ERROR', ret_type='Z')
-
-
-def k_strhash():
-    f = find_function(tree('pysparkling/utils.py'), 'strhash')
-    init = only([s for s in f.body if isinstance(s, ast.Assign) and getattr(s.targets[0], 'id', None) == 'x'
-                 and isinstance(s.value, ast.BinOp) and isinstance(s.value.op, ast.LShift)], 'initial x')
-    loop = only([s for s in f.body if isinstance(s, ast.For)], 'for loop in strhash')
-    fin = [s for s in f.body if isinstance(s, ast.Assign) and getattr(s.targets[0], 'id', None) == 'x'
-           and s is not init]
-    fin = only(fin, 'final assignment to x')
-    out = ''
-
-    class Ord(ast.NodeTransformer):
-        def visit_Call(self, node):
-            self.generic_visit(node)
-            if getattr(node.func, 'id', None) == 'ord':
-                return ast.Name(id='c', ctx=ast.Load())
-            if getattr(node.func, 'id', None) == 'len':
-                return ast.Name(id='len_string', ctx=ast.Load())
-            return node
-    out += Tr().function('strhash_init', [('c', 'Z')], [ast.Return(value=Ord().visit(init.value))], 'ERROR', ret_type='Z')
-    out += '\n' + Tr().function('strhash_step', [('x', 'Z'), ('c', 'Z')],
-                                [Ord().visit(s) for s in loop.body], 'x')
-    out += '\n' + Tr().function('strhash_fin', [('x', 'Z'), ('len_string', 'Z')],
-                                [ast.Return(value=Ord().visit(fin.value))], 'ERROR', ret_type='Z')
-    return out
-
-
-def k_tuplehash():
-    f = find_function(tree('pysparkling/utils.py'), 'portable_hash')
-    branch = only([s for s in f.body if isinstance(s, ast.If) and isinstance(s.test, ast.Call)
-                   and getattr(s.test.func, 'id', None) == 'isinstance'
-                   and getattr(s.test.args[1], 'id', None) == 'tuple'], 'isinstance(x, tuple) branch')
-    init = only([s for s in branch.body if isinstance(s, ast.Assign) and isinstance(s.value, ast.Constant)], 'initial h')
-    loop = only([s for s in branch.body if isinstance(s, ast.For)], 'for loop over the tuple')
-    after = branch.body[branch.body.index(loop) + 1:]
-    if not isinstance(after[-1], ast.Return):
-        raise Unsupported('tuple branch does not end with return')
-
-    class Sub(ast.NodeTransformer):
-        def visit_Call(self, node):
-            self.generic_visit(node)
-            fn = getattr(node.func, 'id', None)
-            if fn == 'portable_hash':
-                return ast.Name(id='hi', ctx=ast.Load())
-            if fn == 'len':
-                return ast.Name(id='len_x', ctx=ast.Load())
-            return node
-    out = Tr().function('tuplehash_init', [], [ast.Return(value=init.value)], 'ERROR', ret_type='Z')
-    out += '\n' + Tr().function('tuplehash_step', [('sys_maxsize', 'Z'), ('h', 'Z'), ('hi', 'Z')],
-                                [Sub().visit(s) for s in loop.body], 'h')
-    out += '\n' + Tr().function('tuplehash_fin', [('h', 'Z'), ('len_x', 'Z')],
-                                [Sub().visit(s) for s in after], 'ERROR', ret_type='Z')
-    return out
-
-
-def k_cast_bounded():
-    f = find_function(tree('pysparkling/sql/casts.py'), '_cast_to_bounded_type')
-    size = assigns_to(f.body, ['size'])
-
-    def branch(cls_names):
-        for s in f.body:
-            if isinstance(s, ast.If) and isinstance(s.test, ast.Call) and getattr(s.test.func, 'id', None) == 'isinstance':
-                arg = s.test.args[1]
-                names = [getattr(e, 'id', None) for e in arg.elts] if isinstance(arg, ast.Tuple) else [getattr(arg, 'id', None)]
-                if names == cls_names:
-                    return s
-        raise Unsupported(f'no isinstance branch for {cls_names}')
-    num = branch(['NumericType', 'BooleanType'])
-    ret = only([s for s in num.body if isinstance(s, ast.Return)], 'return in numeric branch')
-    pre = [s for s in num.body if s is not ret]
-    if not (len(pre) == 1 and isinstance(pre[0], ast.Assign) and getattr(pre[0].targets[0], 'id', None) == 'value'
-            and isinstance(pre[0].value, ast.Call) and getattr(pre[0].value.func, 'id', None) == 'int'):
-        raise Unsupported('numeric branch is not `value = int(value); return ...`')
-    out = Tr().function('cast_wrap', [('min_value', 'Z'), ('max_value', 'Z'), ('value', 'Z')],
-                        size + [ret], 'ERROR', ret_type='Z')
-    st = branch(['StringType'])
-    ret = only([s for s in st.body if isinstance(s, ast.Return)], 'return in string branch')
-    if not (isinstance(ret.value, ast.IfExp) and isinstance(ret.value.orelse, ast.Constant)
-            and ret.value.orelse.value is None and getattr(ret.value.body, 'id', None) == 'casted_value'):
-        raise Unsupported('string branch is not `return casted_value if <range test> else None`')
-    c, _ = Tr().expr(ret.value.test)
-    out += ('\nDefinition cast_in_range (min_value : Z) (max_value : Z) (casted_value : Z) : bool :=\n'
-            f'  {c}.\n')
-    return out
-
-
-def k_cast_widths():
-    out = ''
-    for fn, nm in (('cast_to_byte', 'byte'), ('cast_to_short', 'short'), ('cast_to_int', 'int'), ('cast_to_long', 'long')):
-        f = find_function(tree('pysparkling/sql/casts.py'), fn)
-        a = only([s for s in f.body if isinstance(s, ast.Assign) and isinstance(s.targets[0], ast.Tuple)
-                  and [getattr(e, 'id', None) for e in s.targets[0].elts] == ['min_value', 'max_value']],
-                 f'min/max assignment in {fn}')
-        lo, _ = Tr().expr(a.value.elts[0])
-        hi, _ = Tr().expr(a.value.elts[1])
-        out += f'Definition {nm}_min : Z := {lo}.\nDefinition {nm}_max : Z := {hi}.\n'
-    return out
-
-
-F_TYPES = {'self_mu': 'F', 'self_m2': 'F', 'self_maxValue': 'F', 'self_minValue': 'F',
-           'other_mu': 'F', 'other_m2': 'F', 'other_maxValue': 'F', 'other_minValue': 'F',
-           'value': 'F', 'delta': 'F'}
-SC_STATE = [('self_n', 'Z'), ('self_mu', 'F'), ('self_m2', 'F'), ('self_maxValue', 'F'), ('self_minValue', 'F')]
-SC_OTHER = [('other_n', 'Z'), ('other_mu', 'F'), ('other_m2', 'F'), ('other_maxValue', 'F'), ('other_minValue', 'F')]
-SC_RES = '(self_n, self_mu, self_m2, self_maxValue, self_minValue)'
-
-
-def k_statcounter():
-    cls = 'StatCounter'
-    f = find_function(tree('pysparkling/stat_counter.py'), f'{cls}.merge')
-    body = [s for s in f.body if not isinstance(s, ast.Return)]
-    out = Tr(types=F_TYPES).function('sc_merge', SC_STATE + [('value', 'F')], body, SC_RES)
-    f = find_function(tree('pysparkling/stat_counter.py'), f'{cls}.mergeStats')
-    body = list(f.body)
-    first = body[0]
-    if not (isinstance(first, ast.If) and isinstance(first.test, ast.Compare) and isinstance(first.test.ops[0], ast.Is)):
-        raise Unsupported('mergeStats does not start with the `other is self` test')
-    body = [s for s in body[1:] if not isinstance(s, ast.Return)]
-    out += '\n' + Tr(types=F_TYPES).function('sc_mergeStats', SC_STATE + SC_OTHER, body, SC_RES)
-    return out
-
-
-FILES = [
-    ('Parallelize.v', 'pysparkling/context.py', HEADER_Z, [('par_take', k_parallelize), ('par_single', k_parallelize_guard)]),
-    ('Layout.v', 'pysparkling/rdd.py, pysparkling/utils.py', HEADER_Z,
-     [('coalesce_plan', k_coalesce), ('unique_id', k_unique_id), ('rdd_hash_mask', k_hash_mask),
-      ('partition_index', k_partition_index), ('strhash', k_strhash), ('tuplehash', k_tuplehash)]),
-    ('Casts.v', 'pysparkling/sql/casts.py', HEADER_Z, [('cast_bounded', k_cast_bounded), ('cast_widths', k_cast_widths)]),
-    ('StatCounter.v', 'pysparkling/stat_counter.py', HEADER_F, [('statcounter', k_statcounter)]),
-]
+def all_files():
+    files = []
+    for path in sorted(glob.glob(os.path.join(HERE, 'kernels', '*.py'))):
+        name = os.path.basename(path)[:-3]
+        if name.startswith('_'):
+            continue
+        try:
+            mod = importlib.import_module(name)
+            files.extend(mod.FILES)
+        except Exception as e:  # pylint: disable=broad-except
+            print(f'KERNEL-FAIL {name}.py module: {type(e).__name__}: {e}')
+    return files
 
 
 def main():
     os.makedirs(OUT, exist_ok=True)
     failed = 0
-    for fname, src, header, kernels in FILES:
+    seen = set()
+    for fname, src, header, kernels in all_files():
         text = header.format(src=src)
         ok = True
         for kname, fn in kernels:
@@ -304,7 +52,7 @@ def main():
                 print(f'KERNEL-FAIL {fname} {kname}: {type(e).__name__}: {e}')
                 ok = False
                 failed += 1
-        if header is HEADER_F:
+        if header is genlib.HEADER_F:
             text += 'End Kernels.\n'
         if not ok:
             continue
